@@ -62,6 +62,10 @@ def shards(tier):
     if tier == "thorough":
         for a in range(0, 36720, 720):
             out.append({"kind": "s4", "lo": a, "hi": a + 720})
+    for n in ((9, 11, 12) if tier == "quick" else (9, 10, 11, 12, 13, 16)):
+        out.append({"kind": "big", "n": n})
+    for n in (3, 4, 5):
+        out.append({"kind": "mutate", "n": n})
     return out
 
 
@@ -167,6 +171,76 @@ def run_shard(shard, tier, acc):
                 acc.violation("emitter_sorted", "emitter_sorted", "raises-" + type(e).__name__, {"n": n, "first_mask": shard["lo"] + a},
                               "a list", repr(e)[:200])
         acc.sample(case)
+    elif kind == "big":
+        # structured graphs with two-digit vertex labels, several vertex orders (reference = GF(2) cut rank, any n)
+        from graphiq.backends.stabilizer.functions.height import height_dict, height_max
+        from graphiq.utils.relabel_module import emitter_sorted
+        n = shard["n"]
+        fams = {
+            "path": [(i, i + 1) for i in range(n - 1)],
+            "cycle": [(i, i + 1) for i in range(n - 1)] + [(0, n - 1)],
+            "star": [(0, i) for i in range(1, n)],
+            "ladder": [(i, i + 2) for i in range(n - 2)] + [(i, i + 1) for i in range(0, n - 1, 2)],
+            "bipartite": [(i, j) for i in range(n // 2) for j in range(n // 2, n) if (i + j) % 3],
+            "pseudo": [(i, j) for i in range(n) for j in range(i + 1, n) if (i * i + 3 * j + i * j) % 5 == 1],
+        }
+        orders = {"identity": list(range(n)), "reversed": list(range(n))[::-1], "interleaved": list(range(0, n, 2)) + list(range(1, n, 2))}
+        for fname, e0 in fams.items():
+            for oname, perm in orders.items():
+                edges = sorted((min(perm[a], perm[b]), max(perm[a], perm[b])) for a, b in e0)
+                want = graph_heights(n, edges)
+                case = {"n": n, "family": fname, "order": oname, "edges": [list(e) for e in edges]}
+                adj = np.zeros((n, n), dtype=int)
+                for a, b in edges:
+                    adj[a, b] = adj[b, a] = 1
+                check_heights(acc, np.eye(n, dtype=int), adj.copy(), want, case)
+                acc.evaluations += 2
+                try:
+                    g = gq.nx_graph(n, edges)
+                    hd = {k: int(v) for k, v in height_dict(graph=g).items()}
+                    exp = {-1: 0}
+                    exp.update({k: want[k] for k in range(n)})
+                    if hd != exp:
+                        acc.violation("height", "height_dict", "dict-differs", case, exp, hd)
+                    if int(height_max(graph=gq.nx_graph(n, edges))) != max(want):
+                        acc.violation("height", "height_max", "max-differs", case, max(want), int(height_max(graph=gq.nx_graph(n, edges))))
+                    res = emitter_sorted(np.array([adj]))
+                    if int(res[0][1]) != max(want):
+                        acc.violation("emitter_sorted", "emitter_sorted", "wrong-counts-or-order", case, max(want), int(res[0][1]))
+                except Exception as e:
+                    acc.violation("height", "height_dict/height_max", "raises-" + type(e).__name__, case, want, repr(e)[:200])
+                acc.nontriv(("big", n, fname, oname))
+                acc.state((n, tuple(want)))
+        acc.sample(case)
+    elif kind == "mutate":
+        # one graph object queried, mutated and queried again (history on a shared object): answers must follow the graph
+        from graphiq.backends.stabilizer.functions.height import height_dict, height_max
+        n = shard["n"]
+        pairs = list(itertools.combinations(range(n), 2))
+        for start in range(0, 1 << len(pairs), max(1, (1 << len(pairs)) // 24)):
+            g = gq.nx_graph(n, [p for i, p in enumerate(pairs) if (start >> i) & 1])
+            cur = set(p for i, p in enumerate(pairs) if (start >> i) & 1)
+            hist = []
+            for step, p in enumerate(pairs + pairs[::-1]):
+                if p in cur:
+                    g.remove_edge(*p); cur.discard(p); hist.append(["remove", list(p)])
+                else:
+                    g.add_edge(*p); cur.add(p); hist.append(["add", list(p)])
+                want = graph_heights(n, sorted(cur))
+                case = {"n": n, "start_mask": start, "history": hist[-6:], "edges_now": [list(e) for e in sorted(cur)]}
+                acc.evaluations += 1
+                acc.transitions += 1
+                try:
+                    hd = {k: int(v) for k, v in height_dict(graph=g).items()}
+                    exp = {-1: 0}
+                    exp.update({k: want[k] for k in range(n)})
+                    if hd != exp or int(height_max(graph=g)) != max(want):
+                        acc.violation("height", "height_dict", "stale-or-wrong-after-graph-mutation", case, exp, hd)
+                        break
+                except Exception as e:
+                    acc.violation("height", "height_dict", "raises-" + type(e).__name__, case, want, repr(e)[:200])
+                    break
+            acc.nontriv(("mutate", n, start))
     elif kind == "solver":
         n = shard["n"]
         pairs = list(itertools.combinations(range(n), 2))
